@@ -193,7 +193,7 @@ impl World for WorldI {
                     tok: if rng.chance(9, 10) { TokRef::Registered(rng.below(6) as u8) } else { TokRef::Unknown(rng.below(3) as u8) },
                     chain: dest_chain(rng, &cfg, &ops),
                     dst: rng.below(4) as u8,
-                    amount: match rng.weighted(&[1, 1, 8, 2, 2]) { 0 => IAmt::Zero, 1 => IAmt::Neg, 2 => IAmt::Lit(rng.range(1, 500) as i64), 3 => IAmt::Balance, _ => IAmt::BalancePlus1 },
+                    amount: match rng.weighted(&[1, 1, 8, 2, 2, 1]) { 0 => IAmt::Zero, 1 => IAmt::Neg, 2 => IAmt::Lit(rng.range(1, 500) as i64), 3 => IAmt::Balance, 4 => IAmt::BalancePlus1, _ => IAmt::Wide(rng.below(6) as u8) },
                     data: if rng.chance(1, 3) { Some(rng.below(4) as u8) } else { None },
                     gas_tok: if rng.chance(3, 4) { rng.below(2) as u8 } else { rng.below(8) as u8 },
                     gas: *rng.pick(&[1i64, 1, 10, 100, 0, -1, 1_000_000]),
